@@ -3,6 +3,7 @@
 import os, sys, json
 sys.path.insert(0, os.path.join(os.path.dirname(os.path.abspath(__file__)), "..", "lib"))
 import vf
+sys.path.insert(0, os.path.dirname(os.path.abspath(__file__)))
 
 CFG = 'CONSTANTS\n  Vars <- MCVars\n  Vals <- MCVals\n  Semantics = "%s"\n  Depth = %d\n'
 VARS = ["db", "PK", "OsIndications"]
@@ -96,6 +97,8 @@ def run(c):
                          "" if c.quick else " and 3")
     for s in scen[:1] + scen[nexh:nexh + 1] + scen[-1:]:
         c.sample(s)
+    import flow_common
+    c.cov["evaluations"] += flow_common.run_flow(c, ("read",), 30 if c.quick else 300)
     # canary
     can = [dict(e) for e in events[:300]]
     for e in can:
